@@ -115,6 +115,30 @@ def c08_mixed_stream(seed, records):
     return {"violates": False, "cases": cases}
 
 
+def c08_reader_json(engine, expr, want):
+    from flow.record import selector as S
+    from flow.record.adapter.jsonfile import JsonfileReader
+
+    lines = ['{"id": 1, "user": "root", "port": 22}\n', '{"id": 2}\n', '{"id": 3, "user": "www", "port": 80}\n', '{"id": 4, "port": 443}\n']
+    try:
+        got = [r.id for r in JsonfileReader(io.StringIO("".join(lines)), selector=getattr(S, engine)(expr))]
+    except Exception as e:
+        got = f"raised {type(e).__name__}: {e}"
+    return {"violates": got != want, "detail": None if got == want else f"plain JSON lines filtered with {expr!r}: ids {got}, expected {want}"}
+
+
+def c08_helper_reserved(engine, expr, want):
+    from flow.record import RecordDescriptor
+    from flow.record import selector as S
+
+    rec = RecordDescriptor("c08/meta", [("string", "s")])(s="x", _source="src-a", _classification="top secret")
+    try:
+        got = bool(getattr(S, engine)(expr).match(rec))
+    except Exception as e:
+        got = f"raised {type(e).__name__}: {e}"
+    return {"violates": got is not want, "detail": None if got is want else f"{expr!r}: {got}, expected {want}"}
+
+
 def c08_reader(expr="not (r.pid == 5)", engine="Selector"):
     from flow.record import RecordDescriptor
     from flow.record import selector as S
@@ -163,4 +187,4 @@ def c08_mixed(expr="r.pid == 5", engine="Selector"):
     return {"violates": out != want, "got": out, "expected": want}
 
 
-CALLS = {"c08_reader": c08_reader, "c08_mixed": c08_mixed, "c08_eval": c08_eval, "c08_select": c08_select, "c08_ctx": c08_ctx, "c08_helper": c08_helper, "c08_helper_regex": c08_helper_regex, "c08_mixed_stream": c08_mixed_stream}
+CALLS = {"c08_reader_json": c08_reader_json, "c08_helper_reserved": c08_helper_reserved, "c08_reader": c08_reader, "c08_mixed": c08_mixed, "c08_eval": c08_eval, "c08_select": c08_select, "c08_ctx": c08_ctx, "c08_helper": c08_helper, "c08_helper_regex": c08_helper_regex, "c08_mixed_stream": c08_mixed_stream}
